@@ -3,6 +3,7 @@ mod core;
 mod corpus;
 mod engines;
 mod ift;
+mod synth;
 
 use crate::core::runner::{self, DriverOpts, WorkerArgs};
 
